@@ -139,7 +139,7 @@ theorem validate_spec (cfg : StructCfg) (name : Bytes) (v : GoVal) (g : Bool) (s
   | int _ _ => rw [validate, sValidate]; exact nonStruct_spec _ _ _ st
   | uint _ _ => rw [validate, sValidate]; exact nonStruct_spec _ _ _ st
   | float _ _ _ _ => rw [validate, sValidate]; exact nonStruct_spec _ _ _ st
-  | iface _ => rw [validate, sValidate]; exact nonStruct_spec _ _ _ st
+  | iface _ _ => rw [validate, sValidate]; exact nonStruct_spec _ _ _ st
   | slice _ _ _ _ => rw [validate, sValidate]; exact nonStruct_spec _ _ _ st
   | array _ _ _ => rw [validate, sValidate]; exact nonStruct_spec _ _ _ st
   | map _ _ _ _ => rw [validate, sValidate]; exact nonStruct_spec _ _ _ st
@@ -190,7 +190,7 @@ theorem existTop_spec (cfg : StructCfg) (sn fname : Bytes) (v : GoVal) (k skip :
   | int _ _ => rw [existTop, sExistTop]; exact existScalar_spec_if _ _ _ _ _ _ st
   | uint _ _ => rw [existTop, sExistTop]; exact existScalar_spec_if _ _ _ _ _ _ st
   | float _ _ _ _ => rw [existTop, sExistTop]; exact existScalar_spec_if _ _ _ _ _ _ st
-  | iface _ => rw [existTop, sExistTop]; exact existScalar_spec_if _ _ _ _ _ _ st
+  | iface _ _ => rw [existTop, sExistTop]; exact existScalar_spec_if _ _ _ _ _ _ st
   | other _ _ _ _ => rw [existTop, sExistTop]; exact existScalar_spec_if _ _ _ _ _ _ st
 
 theorem existStripped_spec (cfg : StructCfg) (sn fname : Bytes) (v : GoVal) (k skip : Bool) (cus : Bytes) (st : WSt) :
@@ -219,7 +219,7 @@ theorem existStripped_spec (cfg : StructCfg) (sn fname : Bytes) (v : GoVal) (k s
   | int _ _ => rw [existStripped, sExistStripped]; show Except.ok _ = _; rw [existScalar_spec]; rfl
   | uint _ _ => rw [existStripped, sExistStripped]; show Except.ok _ = _; rw [existScalar_spec]; rfl
   | float _ _ _ _ => rw [existStripped, sExistStripped]; show Except.ok _ = _; rw [existScalar_spec]; rfl
-  | iface _ => rw [existStripped, sExistStripped]; show Except.ok _ = _; rw [existScalar_spec]; rfl
+  | iface _ _ => rw [existStripped, sExistStripped]; show Except.ok _ = _; rw [existScalar_spec]; rfl
   | other _ _ _ _ => rw [existStripped, sExistStripped]; show Except.ok _ = _; rw [existScalar_spec]; rfl
 
 theorem elemsLoop_spec (cfg : StructCfg) (path : Bytes) (i : Nat) (es : GoVals) (st : WSt) :
